@@ -145,6 +145,10 @@ class FakeState:
         if oc == "bgerror":
             raise X.BackgroundThreadError("bg", ValueError("src"))
 
+    def raise_if_orphaned(self, operation_id):
+        if self.script.next("raise_if_orphaned").get("value", False):
+            raise X.OrphanedChildException("orphan", operation_id=operation_id)
+
     def is_replaying(self):
         return bool(self.script.next("is_replaying").get("value", False))
 
